@@ -28,9 +28,14 @@ def call(emd, x, y, K, bound):
 def gen_int(args):
     emd = core.import_emd()
     out = []
+    bufs = {}
     for (xs, ys, K, b2) in args:
-        x = np.array(xs, float)
-        y = np.array(ys, float)
+        # a caller's feature arrays are long-lived objects that are refilled between calls: the SAME array objects
+        # (one per shape) carry every instance, so nothing remembered from an earlier call may be trusted
+        x = bufs.setdefault(('x', len(xs), len(xs[0])), np.empty((len(xs), len(xs[0]))))
+        y = bufs.setdefault(('y', len(ys), len(ys[0])), np.empty((len(ys), len(ys[0]))))
+        np.copyto(x, np.array(xs, float))
+        np.copyto(y, np.array(ys, float))
         bound = np.inf if b2 == INF else float(np.sqrt(b2))
         # the tree's bound is strict; a pair exactly at the bound is allowed by the property either way
         xi, yi, err = call(emd, x, y, K, bound)
@@ -44,8 +49,11 @@ def gen_float(args):
     emd = core.import_emd()
     rng = np.random.RandomState(seed)
     out = []
-    for _ in range(count):
+    bufs = {}
+    for it in range(count):
         nx, ny, nf = int(rng.randint(1, 201)), int(rng.randint(1, 201)), int(rng.randint(1, 5))
+        if it % 2:
+            nx, ny, nf = int(rng.choice([30, 90])), int(rng.choice([40, 120])), 2      # recurring shapes: see the buffers below
         mode = rng.randint(4)
         x = rng.randn(nx, nf)
         y = rng.randn(ny, nf)
@@ -59,6 +67,17 @@ def gen_float(args):
             x = np.sort(x, axis=0)[rng.permutation(nx)]
         K = int(rng.randint(1, 16))
         bound = [np.inf, 1.0, 0.3][rng.randint(3)]
+        if it % 2 and x.shape == (nx, 2) and y.shape == (ny, 2):
+            # long-lived caller arrays refilled in place between calls (large enough for the tree to have several leaves)
+            xb = bufs.setdefault(('x',) + x.shape, np.empty(x.shape))
+            yb = bufs.setdefault(('y',) + y.shape, np.empty(y.shape))
+            # ... first a call on other contents of the very same objects, then the instance itself
+            np.copyto(xb, rng.randn(*x.shape))
+            np.copyto(yb, rng.randn(*y.shape))
+            call(emd, xb, yb, K, bound)
+            np.copyto(xb, x)
+            np.copyto(yb, y)
+            x, y = xb, yb
         xi, yi, err = call(emd, x if nf > 1 or rng.rand() < .5 else x[:, 0], y if nf > 1 or rng.rand() < .5 else y[:, 0], K, bound)
         closer, within = [], []
         if err is None:
